@@ -1,6 +1,6 @@
 (* C13 - Layout, comments, case and line endings never change what is parsed.  Statements only. *)
-From Coq Require Import ZArith NArith List Bool Ascii String.
-Require Import CGT.Model.Date CGT.Model.Dsl CGT.Proofs.DslFacts CGT.Proofs.DslCase.
+From Coq Require Import ZArith NArith List Bool Ascii String Lia.
+Require Import CGT.Model.Date CGT.Model.Dsl CGT.Proofs.DslFacts CGT.Proofs.DslRound CGT.Proofs.DslCase CGT.Proofs.DslLayout.
 Import ListNotations.
 Open Scope N_scope.
 
@@ -42,6 +42,47 @@ Example C13_letter_case_applies :
   map upper a = map upper b /\ exists t, parse (fun _ => true) a = inr [t] /\ x_tick t = T "BRK9".
 Proof. cbv zeta. split; [reflexivity|]. eexists. split; [vm_compute; reflexivity|reflexivity]. Qed.
 
+(* Layout.  A file is any sequence of lines, each either a blank/comment line or a well-formed transaction written with: any
+   leading blanks; any non-empty run of spaces and tabs at each place where the writer puts one space (chosen independently,
+   deco.d_sep); GBP omitted or not after each amount in pounds (d_omit); an absent FEES/TAX clause for a zero amount; any trailing
+   blanks and '#' comment (d_tail); each line ended by LF, CRLF or a lone CR (a CR not being followed by an LF), the last line
+   ended or not; and the whole in any letter case.  What is read is exactly the list of transactions, in order - for every such
+   file, of any length.  (A zero fee or tax comes back as zero GBP.) *)
+Theorem C13_layout : forall (valid_cur : text -> bool) (its : list (item * term)) (last : item) (s : text),
+  Forall (fun p => item_ok valid_cur (fst p)) its -> item_ok valid_cur last -> terms_ok its last ->
+  map upper s = map upper (file_text its last) ->
+  parse valid_cur s = inr (List.concat (map item_txn (map fst its ++ [last]))).
+Proof. exact parse_file_any_case. Qed.
+
+(* non-vacuity: two transactions laid out with tabs, trailing comments, an omitted GBP, a comment line, CRLF / CR / LF endings, lower case *)
+Definition c13_dc : deco :=
+  {| d_lead := T "  "; d_sep := fun i => if Nat.even i then T " " else [ch 9; ch 32]; d_omit := fun _ => true; d_tail := T "   # paid by wire" |}.
+Definition c13_t1 : dtxn :=
+  {| x_date := {| dy := 2024; dm := 2; dd := 29 |}; x_tick := T "BRK9";
+     x_op := DBuy {| d_mant := 1500; d_scale := 3 |} {| m_amt := {| d_mant := 12345; d_scale := 2 |}; m_cur := GBP |}
+                  {| m_amt := {| d_mant := 5; d_scale := 1 |}; m_cur := T "USD" |} |}.
+Definition c13_t2 : dtxn := {| x_date := {| dy := 2025; dm := 1; dd := 1 |}; x_tick := T "X"; x_op := DSplit {| d_mant := 25; d_scale := 1 |} |}.
+Definition c13_items : list (item * term) := [ (ITx c13_dc c13_t1, TCRLF); (IBlank (T "# a comment line"), TCR); (ITx c13_dc c13_t2, TLF) ].
+Example C13_layout_applies :
+  Forall (fun p => item_ok (fun _ => true) (fst p)) c13_items /\ item_ok (fun _ => true) (IBlank []) /\ terms_ok c13_items (IBlank []) /\
+  parse (fun _ => true) (map (fun c => if is_upper c then ascii_of_N (code c + 32) else c) (file_text c13_items (IBlank []))) = inr [c13_t1; c13_t2].
+Proof.
+  assert (Hc : forall a b e, is_upper a = true -> is_upper b = true -> is_upper e = true -> [a; b; e] <> KW_TAX -> [a; b; e] <> KW_BUY ->
+               wf_cur (fun _ => true) [a; b; e]).
+  { intros a b e Ha Hb He H1 H2. exists a, b, e. repeat split; assumption. }
+  assert (Husd : wf_cur (fun _ => true) (T "USD")) by (apply Hc; try reflexivity; discriminate).
+  assert (Hgbp : wf_cur (fun _ => true) GBP) by (apply Hc; try reflexivity; discriminate).
+  assert (Hdc : deco_ok c13_dc).
+  { split; [reflexivity|]. split; [intros i; cbn [c13_dc d_sep]; destruct (Nat.even i); split; first [reflexivity|discriminate]|].
+    split; [reflexivity|]. split; [left; reflexivity|reflexivity]. }
+  split; [|split; [split; reflexivity|split; [|vm_compute; reflexivity]]].
+  - assert (W1 : wf_txn (fun _ => true) c13_t1) by (repeat split; cbn; try reflexivity; try discriminate; try lia; assumption).
+    assert (W2 : wf_txn (fun _ => true) c13_t2) by (repeat split; cbn; try reflexivity; try discriminate; try lia; assumption).
+    constructor; [split; [exact Hdc|exact W1]|]. constructor; [split; reflexivity|]. constructor; [split; [exact Hdc|exact W2]|constructor].
+  - cbn [terms_ok c13_items]. repeat split; try discriminate. intros _ c r E. vm_compute in E. injection E as <- _. discriminate.
+Qed.
+
+Print Assumptions C13_layout.
 Print Assumptions C13_letter_case.
 Print Assumptions C13_blank_line.
 Print Assumptions C13_comment_line.
